@@ -152,6 +152,39 @@ def apply_rules(text, names, unit, where):
     return text
 
 
+def _check_trait_impls(unit, srcs):
+    """A trait impl (Drop, Write, Stream, From, ...) is invoked implicitly: one that the pinned tree did not have is code no
+    contract of the unit speaks about.  The unit's properties are then handed to the native stand-in (exit 2 unless that
+    finds a failing input); impls that disappeared are the business of the `//@fn` anchors."""
+    from rstok import parse_items
+    try:
+        base = json.load(open(os.path.join(VERIF, "units", "trait_impls_baseline.json")))
+    except Exception:
+        return
+    for f, src in srcs.items():
+        try:
+            items = parse_items(src)
+        except LexError:
+            continue
+        cur = []
+
+        def walk(its):
+            for it in its:
+                if it.kind == "impl" and it.trait:
+                    cur.append("%s for %s" % (it.trait, it.name))
+                if it.kind == "mod" and it.sub and it.name != "tests":
+                    walk(it.sub)
+        walk(items)
+        have = list(base.get(f, []))
+        for c in cur:
+            if c in have:
+                have.remove(c)
+            else:
+                props = sorted(set(p for fr in unit.fns if fr["file"] == f for p in fr["props"]))
+                unit.lost_hints.append("new trait impl `%s` in %s is not under contract" % (c, f))
+                unit.outside_reading.append({"fn": c, "props": props, "why": "%s gained `impl %s`, which is invoked implicitly and is under no contract of unit %s" % (f, c, unit.name)})
+
+
 def extract_unit(name, repo=None, drop=None):
     """drop: set of (fn qual, template line) of overlay directives to leave out (hint-free re-verification)."""
     repo = repo or REPO
@@ -161,6 +194,7 @@ def extract_unit(name, repo=None, drop=None):
     unit.drop = set(drop or ())
     rulesmod.LITS.clear()
     _process(unit, tpath, repo)
+    _check_trait_impls(unit, getattr(unit, "srcs_read", {}))
     return unit
 
 
@@ -186,6 +220,9 @@ def _process(unit, tpath, repo):
             if not os.path.exists(p):
                 raise Inconclusive("source file %s missing" % f)
             srcs[f] = open(p).read()
+            if not hasattr(unit, "srcs_read"):
+                unit.srcs_read = {}
+            unit.srcs_read[f] = srcs[f]
         return srcs[f]
 
     cur_fn = None
